@@ -168,6 +168,7 @@ def types_gen(repo, fails):
         arms = re.findall(r"(0x[0-9A-Fa-f]+)\s*=>\s*\{(.*?)\n        \}", body, re.S)
         cover = {}
         n_if = 0
+        blocks = []
         for page, abody in arms:
             page = int(page, 16)
             ifs = re.findall(r"if \((0x[0-9A-Fa-f]+)\.\.=(0x[0-9A-Fa-f]+)\)\.contains\(&u\) \{\s*return JOINING_TABLE\[u as usize - (0x[0-9A-Fa-f]+) \+ (JOINING_OFFSET_0X[0-9A-Fa-f]+)\];\s*\}", abody)
@@ -177,6 +178,7 @@ def types_gen(repo, fails):
             for lo, hi, base, off in ifs:
                 lo, hi, base = int(lo, 16), int(hi, 16), int(base, 16)
                 n_if += 1
+                blocks.append((offs[off], lo, hi, base))
                 for u in range(lo, hi + 1):
                     if (u >> 12) != page or u in cover:
                         continue  # unreachable in this arm / an earlier `if` of the arm already returned
@@ -184,6 +186,17 @@ def types_gen(repo, fails):
                     if idx < 0 or idx >= len(tab):
                         raise ValueError("index out of table for U+%04X" % u)
                     cover[u] = tab[idx]
+        # the blocks tile the table: each block starts where the previous one ended, is indexed from its own
+        # first code point, and the last one ends at the end of the table (a bound that is off by one, or a
+        # block that reads its neighbour's entries, breaks this)
+        blocks.sort()
+        pos = 0
+        for o, lo, hi, base in blocks:
+            if o != pos or base != lo or hi < lo:
+                raise ValueError("joining table blocks do not tile the table at offset %d (block U+%04X..U+%04X, base U+%04X, expected offset %d)" % (o, lo, hi, base, pos))
+            pos = o + (hi - lo + 1)
+        if pos != len(tab):
+            raise ValueError("joining table blocks cover %d entries, the table has %d" % (pos, len(tab)))
         if n_if != body.count("return JOINING_TABLE"):
             raise ValueError("fn joining_type: %d returns, %d parsed" % (body.count("return JOINING_TABLE"), n_if))
         X = jtypes["X"]
